@@ -221,9 +221,10 @@ class Gen:
     def point(self, dim, cplx=None, inf=None):
         r = self.rng
         cplx = (r.random() < self.gaussian) if cplx is None else cplx
+        finite = inf is False
         inf = (r.random() < 0.12) if inf is None else inf
         v = self.vec(dim + 1, cplx, inf)
-        if not inf and r.random() < 0.5:
+        if not inf and (r.random() < 0.5 or (finite and v[-1] == (0, 0))):
             v[-1] = (Fraction(1), Fraction(0))
         return Obj("P", ET((dim + 1,), v))
 
